@@ -1,1 +1,479 @@
-(* C06: under construction *)
+(* Proofs of the C06 statements about the encoder's cycle detection (Json/CycleSpec.v). *)
+From Coq Require Import List Arith Bool Lia.
+From Verif Require Import Json.CycleModel Json.CycleSpec.
+Import ListNotations.
+
+(* ---------- unfolding ---------- *)
+Lemma enc_S : forall f g thr depth seen n,
+  enc (S f) g thr depth seen n =
+  match nth_error g n with
+  | None => (Ok, seen)
+  | Some nd =>
+      match nkind nd with
+      | KLeaf => (Ok, seen)
+      | KIface | KStruct => each (enc f g thr depth) (nkids nd) seen
+      | _ => if thr <=? S depth then
+               if mem n seen then (CycleAt n, seen)
+               else let (r, s') := each (enc f g thr (S depth)) (nkids nd) (n :: seen) in (r, del n s')
+             else each (enc f g thr (S depth)) (nkids nd) seen
+      end
+  end.
+Proof. reflexivity. Qed.
+
+Lemma encp_S : forall f g thr depth seen n,
+  encp (S f) g thr depth seen n =
+  match nth_error g n with
+  | None => Ok
+  | Some nd =>
+      match nkind nd with
+      | KLeaf => Ok
+      | KIface | KStruct => eachp (encp f g thr depth seen) (nkids nd)
+      | _ => if thr <=? S depth then
+               if mem n seen then CycleAt n
+               else eachp (encp f g thr (S depth) (n :: seen)) (nkids nd)
+             else eachp (encp f g thr (S depth) seen) (nkids nd)
+      end
+  end.
+Proof. reflexivity. Qed.
+
+Lemma encd_S : forall f g thr depth seen n,
+  encd (S f) g thr depth seen n =
+  match nth_error g n with
+  | None => (Ok, depth)
+  | Some nd =>
+      match nkind nd with
+      | KLeaf => (Ok, depth)
+      | KIface | KStruct => eachd (encd f g thr depth seen) (nkids nd) depth
+      | _ => if thr <=? S depth then
+               if mem n seen then (CycleAt n, S depth)
+               else eachd (encd f g thr (S depth) (n :: seen)) (nkids nd) (S depth)
+             else eachd (encd f g thr (S depth) seen) (nkids nd) (S depth)
+      end
+  end.
+Proof. reflexivity. Qed.
+
+(* ---------- sets as lists ---------- *)
+Lemma mem_In : forall n l, mem n l = true <-> In n l.
+Proof.
+  induction l as [|x r IH]; simpl.
+  - split; [discriminate | tauto].
+  - rewrite orb_true_iff, Nat.eqb_eq, IH. tauto.
+Qed.
+
+Lemma mem_notin : forall n l, mem n l = false -> ~ In n l.
+Proof. intros n l H HI. apply mem_In in HI. congruence. Qed.
+
+Lemma del_notin : forall n l, mem n l = false -> del n l = l.
+Proof.
+  induction l as [|x r IH]; simpl; intros H; auto.
+  apply orb_false_iff in H as [H1 H2]. rewrite H1. f_equal; auto.
+Qed.
+
+Lemma del_cons_same : forall n l, del n (n :: l) = del n l.
+Proof. intros; simpl. rewrite Nat.eqb_refl. reflexivity. Qed.
+
+(* ---------- the mutable set is a set passed down ---------- *)
+Lemma each_refine : forall (F : list nat -> nat -> result * list nat) (Fp : nat -> result) seen,
+  (forall c, F seen c = (Fp c, seen)) -> forall l, each F l seen = (eachp Fp l, seen).
+Proof.
+  intros F Fp seen H l. induction l as [|c r IH]; simpl; auto.
+  rewrite H. destruct (Fp c); auto.
+Qed.
+
+Lemma enc_refine : refine_statement.
+Proof.
+  unfold refine_statement. induction fuel as [|f IH]; intros g thr depth seen n.
+  - reflexivity.
+  - rewrite enc_S, encp_S. destruct (nth_error g n) as [nd|]; auto.
+    assert (T : (if thr <=? S depth
+                 then if mem n seen then (CycleAt n, seen)
+                      else let (r, s') := each (enc f g thr (S depth)) (nkids nd) (n :: seen) in (r, del n s')
+                 else each (enc f g thr (S depth)) (nkids nd) seen) =
+                ((if thr <=? S depth
+                  then if mem n seen then CycleAt n else eachp (encp f g thr (S depth) (n :: seen)) (nkids nd)
+                  else eachp (encp f g thr (S depth) seen) (nkids nd)), seen)).
+    { destruct (thr <=? S depth).
+      - destruct (mem n seen) eqn:M; auto.
+        rewrite (each_refine _ (encp f g thr (S depth) (n :: seen))) by (intros; apply IH).
+        rewrite del_cons_same, del_notin by assumption. reflexivity.
+      - apply each_refine. intros; apply IH. }
+    destruct (nkind nd); auto; apply each_refine; intros; apply IH.
+Qed.
+
+Lemma encode_encp : forall fuel g thr root, encode fuel g thr root = encp fuel g thr 0 [] root.
+Proof. intros. unfold encode. rewrite enc_refine. reflexivity. Qed.
+
+Lemma eachd_fst : forall (F : nat -> result * nat) (Fp : nat -> result),
+  (forall c, fst (F c) = Fp c) -> forall l m, fst (eachd F l m) = eachp Fp l.
+Proof.
+  intros F Fp H l. induction l as [|c r IH]; intros m; simpl; auto.
+  specialize (H c). destruct (F c) as [res m1]. simpl in H. subst. destruct (Fp c); simpl; auto.
+Qed.
+
+Lemma encd_fst : instrument_statement.
+Proof.
+  unfold instrument_statement. induction fuel as [|f IH]; intros g thr depth seen n.
+  - reflexivity.
+  - rewrite encd_S, encp_S. destruct (nth_error g n) as [nd|]; auto.
+    destruct (nkind nd); auto;
+      try (destruct (thr <=? S depth); [destruct (mem n seen); auto|]);
+      apply eachd_fst; intros; apply IH.
+Qed.
+
+(* ---------- facts about eachp ---------- *)
+Lemma eachp_cycle : forall (F : nat -> result) l m, eachp F l = CycleAt m -> exists c, In c l /\ F c = CycleAt m.
+Proof.
+  induction l as [|c r IH]; simpl; intros m H; [discriminate|].
+  destruct (F c) eqn:E.
+  - destruct (IH _ H) as [c' [Hi Hc]]. eauto.
+  - inversion H; subst. eauto.
+  - discriminate.
+Qed.
+
+Lemma eachp_ok : forall (F : nat -> result) l, eachp F l = Ok -> forall c, In c l -> F c = Ok.
+Proof.
+  induction l as [|c r IH]; simpl; intros H c' Hi; [tauto|].
+  destruct (F c) eqn:E; try discriminate.
+  destruct Hi as [<-|Hi]; auto.
+Qed.
+
+Lemma eachp_total : forall (F : nat -> result) l, (forall c, In c l -> F c <> OutOfFuel) -> eachp F l <> OutOfFuel.
+Proof.
+  induction l as [|c r IH]; simpl; intros H; [discriminate|].
+  destruct (F c) eqn:E.
+  - apply IH. intros; apply H; auto.
+  - discriminate.
+  - exfalso. apply (H c); auto.
+Qed.
+
+Lemma eachp_mono : forall (F G : nat -> result) l,
+  (forall c, In c l -> F c <> OutOfFuel -> G c = F c) -> eachp F l <> OutOfFuel -> eachp G l = eachp F l.
+Proof.
+  induction l as [|c r IH]; simpl; intros H N; auto.
+  destruct (F c) eqn:E.
+  - rewrite (H c) by (auto; congruence). rewrite E. apply IH; auto.
+  - rewrite (H c) by (auto; congruence). rewrite E. reflexivity.
+  - congruence.
+Qed.
+
+(* ---------- more fuel never changes an answer ---------- *)
+Lemma encp_mono : forall f g thr depth seen n f', f <= f' ->
+  encp f g thr depth seen n <> OutOfFuel -> encp f' g thr depth seen n = encp f g thr depth seen n.
+Proof.
+  induction f as [|f IH]; intros g thr depth seen n f' L N.
+  - simpl in N. congruence.
+  - destruct f' as [|f']; [lia|]. rewrite (encp_S f'). rewrite (encp_S f) in *.
+    destruct (nth_error g n) as [nd|]; auto.
+    destruct (nkind nd); auto;
+      try (destruct (thr <=? S depth); [destruct (mem n seen); auto|]);
+      apply eachp_mono; auto; intros; apply IH; auto; lia.
+Qed.
+
+Lemma fuel_irrelevant : fuel_irrelevant_statement.
+Proof.
+  unfold fuel_irrelevant_statement. intros. rewrite !encode_encp in *. apply encp_mono; auto.
+Qed.
+
+(* ---------- the graph ---------- *)
+Lemma succs_kids : forall g n nd, nth_error g n = Some nd -> nkind nd <> KLeaf -> succs g n = nkids nd.
+Proof. intros g n nd E K. unfold succs. rewrite E. destruct (nkind nd); congruence. Qed.
+
+Lemma reach_trans : forall g a b c, reach g a b -> reach g b c -> reach g a c.
+Proof. intros g a b c H. induction H; intros; auto. econstructor; eauto. Qed.
+
+Lemma reach_edge_r : forall g a b c, reach g a b -> edge g b c -> reach g a c.
+Proof. intros. eapply reach_trans; eauto. econstructor; eauto. constructor. Qed.
+
+(* a path of at least one edge *)
+Definition pathp (g : graph) (a b : nat) : Prop := exists m, edge g a m /\ reach g m b.
+
+Lemma pathp_edge_r : forall g a b c, pathp g a b -> edge g b c -> pathp g a c.
+Proof. intros g a b c [m [E R]] Hc. exists m. split; auto. eapply reach_edge_r; eauto. Qed.
+
+(* ---------- soundness ---------- *)
+Lemma sound_gen : forall g thr fuel depth seen cur m,
+  (forall s, In s seen -> pathp g s cur) ->
+  encp fuel g thr depth seen cur = CycleAt m ->
+  reach g cur m /\ on_cycle g m /\ is_tracked g m = true.
+Proof.
+  intros g thr. induction fuel as [|f IH]; intros depth seen cur m Inv H.
+  - discriminate.
+  - rewrite encp_S in H. destruct (nth_error g cur) as [nd|] eqn:En; [|discriminate].
+    assert (Step : forall d s, (forall x, In x s -> forall c, In c (nkids nd) -> pathp g x c) ->
+                   nkind nd <> KLeaf ->
+                   eachp (encp f g thr d s) (nkids nd) = CycleAt m ->
+                   reach g cur m /\ on_cycle g m /\ is_tracked g m = true).
+    { intros d s Hs K He. apply eachp_cycle in He as [c [Hi Hc]].
+      assert (Ed : edge g cur c) by (unfold edge; rewrite (succs_kids _ _ _ En K); auto).
+      destruct (IH d s c m) as [R [C T]]; auto.
+      split; [econstructor; eauto | auto]. }
+    assert (Down : forall x, In x seen -> forall c, In c (nkids nd) -> nkind nd <> KLeaf -> pathp g x c).
+    { intros x Hx c Hc K. eapply pathp_edge_r; [apply Inv; auto|].
+      unfold edge; rewrite (succs_kids _ _ _ En K); auto. }
+    assert (Tr : tracked (nkind nd) = true -> (if thr <=? S depth
+                  then if mem cur seen then CycleAt cur else eachp (encp f g thr (S depth) (cur :: seen)) (nkids nd)
+                  else eachp (encp f g thr (S depth) seen) (nkids nd)) = CycleAt m ->
+                 reach g cur m /\ on_cycle g m /\ is_tracked g m = true).
+    { intros Tk H'. assert (K : nkind nd <> KLeaf) by (intro K; rewrite K in Tk; discriminate).
+      destruct (thr <=? S depth).
+      - destruct (mem cur seen) eqn:M.
+        + inversion H'; subst. apply mem_In in M. split; [constructor|]. split.
+          * apply Inv; auto.
+          * unfold is_tracked. rewrite En. auto.
+        + apply (Step (S depth) (cur :: seen)); [| exact K | exact H'].
+          intros x [<-|Hx] c Hc.
+          * exists c. split; [|constructor]. unfold edge; rewrite (succs_kids _ _ _ En K); auto.
+          * apply Down; auto.
+      - apply (Step (S depth) seen); [| exact K | exact H']. intros; apply Down; auto. }
+    destruct (nkind nd) eqn:Ek; try discriminate;
+      try (apply Tr; [reflexivity | exact H]);
+      (apply (Step depth seen); [intros; apply Down; auto; congruence | congruence | exact H]).
+Qed.
+
+Lemma sound : sound_statement.
+Proof.
+  unfold sound_statement. intros fuel g thr root n H. rewrite encode_encp in H.
+  eapply sound_gen; eauto. intros s [].
+Qed.
+
+(* ---------- completeness: a traversal that completes has seen everything below it ---------- *)
+Lemma cyclic_child : forall g cur, cyclic_from g cur -> exists c, edge g cur c /\ cyclic_from g c.
+Proof.
+  intros g cur [n [R C]]. inversion R; subst.
+  - destruct C as [m [E Rm]]. exists m. split; auto. exists n. split; auto. exists m; auto.
+  - exists b. split; auto. exists n; auto.
+Qed.
+
+Lemma ok_acyclic : forall g thr fuel depth seen cur, encp fuel g thr depth seen cur = Ok -> ~ cyclic_from g cur.
+Proof.
+  intros g thr. induction fuel as [|f IH]; intros depth seen cur H Cy.
+  - discriminate.
+  - apply cyclic_child in Cy as [c [E Cc]].
+    unfold edge, succs in E. rewrite encp_S in H.
+    destruct (nth_error g cur) as [nd|]; [|destruct E].
+    assert (Step : forall d s, eachp (encp f g thr d s) (nkids nd) = Ok -> In c (nkids nd) -> False).
+    { intros d s He Hi. eapply IH; [eapply eachp_ok; eauto | exact Cc]. }
+    destruct (nkind nd); try (destruct E; fail);
+      try (destruct (thr <=? S depth); [destruct (mem cur seen); [discriminate|]|]); eapply Step; eauto.
+Qed.
+
+Lemma complete : complete_statement.
+Proof.
+  unfold complete_statement. intros fuel g thr root H. rewrite encode_encp in H. eapply ok_acyclic; eauto.
+Qed.
+
+(* ---------- counting tracked nodes ---------- *)
+Lemma filter_len : forall (A : Type) (f : A -> bool) l, length (filter f l) <= length l.
+Proof. induction l; simpl; auto. destruct (f a); simpl; lia. Qed.
+
+Lemma ntracked_le : forall g, ntracked g <= length g.
+Proof. intros. unfold ntracked, tracked_ids. rewrite <- (seq_length (length g) 0) at 2. apply filter_len. Qed.
+
+Lemma tracked_in_ids : forall g s, is_tracked g s = true -> In s (tracked_ids g).
+Proof.
+  intros g s H. unfold tracked_ids. apply filter_In. split; auto.
+  apply in_seq. split; [lia|]. simpl. unfold is_tracked in H.
+  destruct (nth_error g s) eqn:E; [|discriminate]. apply nth_error_Some. congruence.
+Qed.
+
+Lemma seen_bound : forall g seen, NoDup seen -> (forall s, In s seen -> is_tracked g s = true) -> length seen <= ntracked g.
+Proof. intros. apply NoDup_incl_length; auto. intros s Hs. apply tracked_in_ids; auto. Qed.
+
+(* ---------- termination with an explicit recursion-depth bound ---------- *)
+Definition Wd (g : graph) : nat := length g + 2.
+Definition rank (g : graph) (n : nat) : nat := if is_inner g n then n + 2 else 1.
+Definition need (g : graph) (thr depth : nat) (seen : list nat) (n : nat) : nat :=
+  ((thr - depth) + (ntracked g - length seen)) * Wd g + rank g n.
+
+Lemma rank_le : forall g n, rank g n <= Wd g.
+Proof.
+  intros. unfold rank, Wd, is_inner. destruct (nth_error g n) as [nd|] eqn:E; [|lia].
+  assert (n < length g) by (apply nth_error_Some; congruence).
+  destruct (nkind nd); lia.
+Qed.
+
+Lemma rank_pos : forall g n, 1 <= rank g n.
+Proof. intros. unfold rank. destruct (is_inner g n); lia. Qed.
+
+Lemma need_step : forall room room' w r f, room' + 1 <= room -> r <= w -> room * w + 1 <= S f -> room' * w + r <= f.
+Proof. intros. nia. Qed.
+
+Lemma total_gen : forall g thr, wf g -> forall fuel depth seen n,
+  NoDup seen -> (forall s, In s seen -> is_tracked g s = true) ->
+  need g thr depth seen n <= fuel -> encp fuel g thr depth seen n <> OutOfFuel.
+Proof.
+  intros g thr WF. induction fuel as [|f IH]; intros depth seen n ND TR NE.
+  - exfalso. unfold need in NE. pose proof (rank_pos g n). nia.
+  - rewrite encp_S. destruct (nth_error g n) as [nd|] eqn:En; [|discriminate].
+    assert (Tr : tracked (nkind nd) = true ->
+                 (if thr <=? S depth
+                  then if mem n seen then CycleAt n else eachp (encp f g thr (S depth) (n :: seen)) (nkids nd)
+                  else eachp (encp f g thr (S depth) seen) (nkids nd)) <> OutOfFuel).
+    { intros Tk.
+      assert (Rk : rank g n = 1).
+      { unfold rank, is_inner. rewrite En. destruct (nkind nd); try reflexivity; discriminate. }
+      assert (It : is_tracked g n = true) by (unfold is_tracked; rewrite En; auto).
+      unfold need in NE. rewrite Rk in NE.
+      destruct (thr <=? S depth) eqn:T.
+      - destruct (mem n seen) eqn:M; [discriminate|].
+        apply Nat.leb_le in T.
+        assert (ND' : NoDup (n :: seen)) by (constructor; [apply mem_notin; auto | auto]).
+        assert (TR' : forall s, In s (n :: seen) -> is_tracked g s = true) by (intros s [<-|Hs]; auto).
+        pose proof (seen_bound g (n :: seen) ND' TR') as SB. simpl in SB.
+        apply eachp_total. intros c Hc. apply IH; auto.
+        unfold need. eapply need_step; [| apply rank_le | exact NE]. simpl. lia.
+      - apply Nat.leb_gt in T.
+        apply eachp_total. intros c Hc. apply IH; auto.
+        unfold need. eapply need_step; [| apply rank_le | exact NE]. lia. }
+    assert (Inn : nkind nd = KIface \/ nkind nd = KStruct ->
+                  eachp (encp f g thr depth seen) (nkids nd) <> OutOfFuel).
+    { intros K.
+      assert (In_n : is_inner g n = true) by (unfold is_inner; rewrite En; destruct K as [K|K]; rewrite K; auto).
+      assert (KL : nkind nd <> KLeaf) by (destruct K as [K|K]; rewrite K; discriminate).
+      apply eachp_total. intros c Hc. apply IH; auto.
+      unfold need in *. unfold rank in NE at 1. rewrite In_n in NE.
+      assert (rank g c <= n + 1).
+      { unfold rank. destruct (is_inner g c) eqn:Ic; [|lia].
+        assert (c < n); [|lia]. apply WF; auto. unfold edge. rewrite (succs_kids _ _ _ En KL). auto. }
+      lia. }
+    destruct (nkind nd) eqn:Ek; try discriminate; try (apply Tr; reflexivity); apply Inn; auto.
+Qed.
+
+Lemma total : total_statement.
+Proof.
+  unfold total_statement. intros g thr root fuel WF B. rewrite encode_encp.
+  apply total_gen; [exact WF | apply NoDup_nil | intros s [] |].
+  unfold need, fuel_bound in *. simpl.
+  pose proof (ntracked_le g). pose proof (rank_le g root). unfold Wd in *. nia.
+Qed.
+
+Lemma decides : decides_statement.
+Proof.
+  unfold decides_statement. intros g thr root fuel WF B.
+  pose proof (total g thr root fuel WF B) as T.
+  split.
+  - intros Cy. destruct (encode fuel g thr root) eqn:E.
+    + exfalso. eapply complete; eauto.
+    + eauto.
+    + congruence.
+  - intros NCy. destruct (encode fuel g thr root) eqn:E; auto.
+    + exfalso. apply NCy. apply sound in E as [R [C _]]. exists n; auto.
+    + congruence.
+Qed.
+
+(* ---------- the depth counter is bounded by the threshold plus the number of tracked nodes ---------- *)
+Lemma eachd_bound : forall (F : nat -> result * nat) l m B,
+  (forall c, In c l -> snd (F c) <= B) -> m <= B -> snd (eachd F l m) <= B.
+Proof.
+  induction l as [|c r IH]; simpl; intros m B H Hm; auto.
+  assert (Hc : snd (F c) <= B) by (apply H; auto).
+  destruct (F c) as [res m1]. simpl in Hc.
+  assert (Nat.max m m1 <= B) by (apply Nat.max_lub; auto).
+  destruct res; simpl; auto.
+Qed.
+
+Lemma depth_gen : forall g thr fuel depth seen n,
+  NoDup seen -> (forall s, In s seen -> is_tracked g s = true) -> depth <= thr + length seen ->
+  snd (encd fuel g thr depth seen n) <= thr + ntracked g + 1.
+Proof.
+  intros g thr. induction fuel as [|f IH]; intros depth seen n ND TR DL;
+    pose proof (seen_bound g seen ND TR) as SB.
+  - simpl. lia.
+  - rewrite encd_S. destruct (nth_error g n) as [nd|] eqn:En; [|simpl; lia].
+    assert (Tr : tracked (nkind nd) = true ->
+                 snd (if thr <=? S depth
+                      then if mem n seen then (CycleAt n, S depth)
+                           else eachd (encd f g thr (S depth) (n :: seen)) (nkids nd) (S depth)
+                      else eachd (encd f g thr (S depth) seen) (nkids nd) (S depth)) <= thr + ntracked g + 1).
+    { intros Tk.
+      assert (It : is_tracked g n = true) by (unfold is_tracked; rewrite En; auto).
+      destruct (thr <=? S depth) eqn:T.
+      - destruct (mem n seen) eqn:M; [simpl; lia|].
+        assert (ND' : NoDup (n :: seen)) by (constructor; [apply mem_notin; auto | auto]).
+        assert (TR' : forall s, In s (n :: seen) -> is_tracked g s = true) by (intros s [<-|Hs]; auto).
+        apply eachd_bound; [|lia]. intros c Hc. apply IH; auto. simpl. lia.
+      - apply Nat.leb_gt in T. apply eachd_bound; [|lia]. intros c Hc. apply IH; auto. lia. }
+    destruct (nkind nd) eqn:Ek; try (apply Tr; reflexivity); try (simpl; lia);
+      (apply eachd_bound; [|lia]; intros c Hc; apply IH; auto).
+Qed.
+
+Lemma depth_bound : depth_bound_statement.
+Proof.
+  unfold depth_bound_statement. intros. apply depth_gen; [apply NoDup_nil | intros s [] | simpl; lia].
+Qed.
+
+(* ---------- what stays unbounded: acyclic nesting ---------- *)
+Lemma chain_length : forall n, length (chain n) = S n.
+Proof. induction n; simpl; auto. rewrite app_length, IHn. simpl. lia. Qed.
+
+Lemma chain_nth_0 : forall n, nth_error (chain n) 0 = Some (mkNode KLeaf []).
+Proof.
+  induction n; [reflexivity|]. cbn [chain]. rewrite nth_error_app1; auto. rewrite chain_length. lia.
+Qed.
+
+Lemma chain_nth_S : forall n i, i < n -> nth_error (chain n) (S i) = Some (mkNode KPtr [i]).
+Proof.
+  induction n; intros i H; [lia|]. cbn [chain].
+  destruct (Nat.eq_dec i n) as [->|Ne].
+  - rewrite nth_error_app2 by (rewrite chain_length; lia). rewrite chain_length, Nat.sub_diag. reflexivity.
+  - rewrite nth_error_app1 by (rewrite chain_length; lia). apply IHn. lia.
+Qed.
+
+Lemma mem_above : forall i seen, (forall s, In s seen -> i < s) -> mem i seen = false.
+Proof.
+  intros i seen H. destruct (mem i seen) eqn:M; auto. apply mem_In in M. apply H in M. lia.
+Qed.
+
+Lemma chain_encd : forall n thr i, i <= n -> forall fuel d seen,
+  (forall s, In s seen -> i < s) -> i < fuel -> encd fuel (chain n) thr d seen i = (Ok, d + i).
+Proof.
+  intros n thr. induction i as [|j IH]; intros Hi fuel d seen Hs Hf; (destruct fuel as [|f]; [lia|]); rewrite encd_S.
+  - rewrite chain_nth_0. simpl. f_equal. lia.
+  - rewrite chain_nth_S by lia. simpl nkind. simpl nkids.
+    assert (E1 : forall s', (forall s, In s s' -> j < s) ->
+                 eachd (encd f (chain n) thr (S d) s') [j] (S d) = (Ok, d + S j)).
+    { intros s' Hs'. cbn [eachd]. rewrite IH by (auto; lia). cbn [eachd]. rewrite Nat.max_r by lia. f_equal. lia. }
+    destruct (thr <=? S d).
+    + rewrite mem_above by auto. apply E1. intros s [<-|H]; [lia|]. apply Hs in H. lia.
+    + apply E1. intros s H. apply Hs in H. lia.
+Qed.
+
+Lemma chain_needs_fuel : forall n thr i, i <= n -> forall fuel d seen,
+  (forall s, In s seen -> i < s) -> fuel <= i -> encp fuel (chain n) thr d seen i = OutOfFuel.
+Proof.
+  intros n thr. induction i as [|j IH]; intros Hi fuel d seen Hs Hf; (destruct fuel as [|f]; [reflexivity|]); [lia|].
+  rewrite encp_S. rewrite chain_nth_S by lia. simpl nkind. simpl nkids.
+  assert (E1 : forall s', (forall s, In s s' -> j < s) ->
+               eachp (encp f (chain n) thr (S d) s') [j] = OutOfFuel).
+  { intros s' Hs'. cbn [eachp]. rewrite IH by (auto; lia). reflexivity. }
+  destruct (thr <=? S d).
+  - rewrite mem_above by auto. apply E1. intros s [<-|H]; [lia|]. apply Hs in H. lia.
+  - apply E1. intros s H. apply Hs in H. lia.
+Qed.
+
+Lemma chain_depth : chain_depth_statement.
+Proof.
+  unfold chain_depth_statement. intros n thr.
+  assert (E : encd (S n) (chain n) thr 0 [] n = (Ok, n)).
+  { rewrite chain_encd; auto. intros s []. }
+  split; [exact E|]. split.
+  - apply (complete (S n) (chain n) thr n). rewrite encode_encp, <- encd_fst, E. reflexivity.
+  - intros fuel Hf. rewrite encode_encp. apply chain_needs_fuel; auto. intros s [].
+Qed.
+
+Lemma acyclic_depth_bounded_refuted : ~ acyclic_depth_bounded_statement.
+Proof.
+  intros [B H]. destruct (chain_depth (S B) 0) as [E [A _]].
+  specialize (H (chain (S B)) 0 (S B) (S (S B)) A). rewrite E in H. simpl in H. lia.
+Qed.
+
+(* ---------- the boolean well-formedness check of the driver is the proposition ---------- *)
+Lemma wfb_wf : forall g, wfb g = true -> wf g.
+Proof.
+  intros g H n c In_n E Ic. unfold wfb in H. rewrite forallb_forall in H.
+  assert (Hn : In n (seq 0 (length g))).
+  { apply in_seq. split; [lia|]. simpl. unfold is_inner in In_n.
+    destruct (nth_error g n) eqn:En; [|discriminate]. apply nth_error_Some. congruence. }
+  specialize (H n Hn). rewrite In_n in H. rewrite forallb_forall in H.
+  specialize (H c E). rewrite Ic in H. simpl in H. apply Nat.ltb_lt. exact H.
+Qed.
